@@ -420,6 +420,49 @@ def run(ctx):
     if not n17:
         ctx.unknown('M17', m, None, 'no extended_with() call in ParsingStateDeltaExtendLatexContextDb', construct='delta forwarding')
 
+    # ---- M18: no accessor hands out the database's own containers
+    ctx.rule('M18', 'no public method of LatexContextDb returns one of the containers its constructor creates (category_list, d, '
+                    'lookup_chain_maps -- directly or through a local alias): a caller that sorts or edits the returned list '
+                    'changes the category order the database reports while the lookup maps keep the old order, even on a '
+                    'frozen database and on every database derived from it that shares the list; accessors return a copy', 1)
+    cont18 = set()
+    init18 = meths.get('__init__')
+    if init18 is not None:
+        for st_ in iter_own(init18):
+            if isinstance(st_, ast.Assign) and len(st_.targets) == 1 and is_self_attr(st_.targets[0]):
+                v_ = st_.value
+                if isinstance(v_, (ast.List, ast.Dict, ast.Set, ast.ListComp, ast.DictComp, ast.SetComp)) or (
+                        isinstance(v_, ast.Call) and call_name(v_) in ('list', 'dict', 'set', 'ChainMap', 'OrderedDict',
+                                                                        'defaultdict')):
+                    cont18.add(st_.targets[0].attr)
+    if not cont18:
+        ctx.unknown('M18', m, None, 'no container field found in LatexContextDb.__init__', construct='container fields')
+    n18 = 0
+    for q_, f_ in sorted(m.functions.items()):
+        if not q_.startswith(CLASS + '.') or q_.count('.') != 1 or f_.name.startswith('_'):
+            continue
+        loc_ = {}
+        for st_ in iter_own(f_):
+            if isinstance(st_, ast.Assign) and len(st_.targets) == 1 and isinstance(st_.targets[0], ast.Name):
+                loc_.setdefault(st_.targets[0].id, []).append(st_.value)
+        for r_ in iter_own(f_):
+            if not (isinstance(r_, ast.Return) and r_.value is not None):
+                continue
+            n18 += 1
+            vals_ = [r_.value]
+            if isinstance(r_.value, ast.Name):
+                vals_ = loc_.get(r_.value.id, [])
+            elif isinstance(r_.value, ast.IfExp):
+                vals_ = [r_.value.body, r_.value.orelse]
+            bad_ = [v_ for v_ in vals_ if is_self_attr(v_) and v_.attr in cont18]
+            ctx.decide('M18', not bad_, m, r_, '%s returns no internal container' % q_,
+                       '%s returns %s, the database\'s own container, not a copy: sorting or editing the returned object '
+                       'changes the category order reported by categories()/iter_*_specs()/filtered_context() while the lookup '
+                       'chain maps keep the old precedence -- on a frozen database too, and on every derived database sharing it'
+                       % (q_, unparse(bad_[0]) if bad_ else ''), construct='%s: returned container' % q_)
+    if not n18:
+        ctx.unknown('M18', m, None, 'no public method with a return value found', construct='accessor scan')
+
     ctx.rule('M11', 'extended_with(): when new definitions are merged into an existing automatically named category the '
                     'new definition of a name replaces the old one (abstract source-order interpretation of the merge)', 3)
     merge_precedence(ctx, 'M11', m, meths['extended_with'])
